@@ -10,6 +10,8 @@ mod c07;
 mod c08;
 mod c13;
 mod c14;
+mod c15;
+mod c17;
 
 use ctx::{Ctx, Tier};
 use std::collections::BTreeMap;
@@ -51,6 +53,8 @@ fn main() {
         "C08" => { c08::run(&mut ctx); ctx.finish("corr.C08", "run_C08"); }
         "C13" => { c13::run(&mut ctx); ctx.finish("corr.C13", "run_C13"); }
         "C14" => { c14::run(&mut ctx); ctx.finish("corr.C14", "run_C14"); }
+        "C15" => { c15::run(&mut ctx); ctx.finish("corr.C15", "run_C15"); }
+        "C17" => { c17::run(&mut ctx); ctx.finish("corr.C17", "run_C17"); }
         _ => { eprintln!("unknown property {}", prop); std::process::exit(2); }
     }
 }
